@@ -175,6 +175,9 @@ type c32Problem struct {
 func (m *c32Model) step(e c32Ev, o c32Obs, replyGen int, firstMarker int) []c32Problem {
 	var probs []c32Problem
 	bad := func(sig, format string, a ...any) {
+		if e.K == "t" && m.tainted {
+			sig = c32SigStale // any timing disagreement of a handshake that inherited a leftover timer
+		}
 		probs = append(probs, c32Problem{sig, fmt.Sprintf(format, a...)})
 	}
 	I := m.cfg.I
@@ -203,12 +206,7 @@ func (m *c32Model) step(e c32Ev, o c32Obs, replyGen int, firstMarker int) []c32P
 		m.stats.txThisGen++
 		m.lastTx = c32RemKey(m.remotes)
 	}
-	early := func(sig, format string, a ...any) {
-		if m.tainted {
-			sig = c32SigStale
-		}
-		bad(sig, format, a...)
-	}
+	early := bad
 	abandon := func() {
 		if m.timer {
 			m.stale = append(m.stale, m.hi)
@@ -351,7 +349,7 @@ func (m *c32Model) step(e c32Ev, o c32Obs, replyGen int, firstMarker int) []c32P
 			break
 		}
 		m.counter++
-		expectTxAll(fmt.Sprintf("timer-driven attempt %d", m.counter))
+		expectTxAll("timer-driven attempt")
 		m.lo = m.now + I*vtime.Duration(m.counter)
 		m.hi = m.lo + I
 	case "s1":
